@@ -2,6 +2,7 @@
 From Coq Require Import List String Ascii Bool NArith ZArith Lia Arith.
 From Yae Require Import Base.Sexp Model.Ty Gen.Generated Model.Unify Model.Num Model.Lexer Model.Literal Model.Cst
   Model.Check Model.CheckSpec Model.Val Model.Render Model.ValSpec Model.Builtins Model.Eval Model.EvalSpec Model.VM.
+From Yae Require Proofs.ExprInd Proofs.C05Proofs Proofs.C01Proofs.
 Import ListNotations.
 Local Open Scope string_scope.
 Local Open Scope list_scope.
@@ -2491,5 +2492,280 @@ Section Main.
         apply instr_call_by_need with (sg := sg); [|exact Hlazy].
         exact (pool_ext_nth _ _ _ _ Hp Hidx).
     Qed.
+
+    Lemma case_call : forall col key idx fty callee args, Pstmt (S f) (ACall col key idx fty callee args).
+    Proof.
+      intros col key idx fty callee args st st' frag pf t o Hs W Hc E He Hnf.
+      cbn [subs_agree] in Hs. destruct Hs as [Hargs Hdyn]. apply all_list in Hargs.
+      rewrite compile_call_eq in Hc. rewrite eval_call_eq in He.
+      destruct (String.eqb key "") eqn:Hk.
+      - apply String.eqb_eq in Hk. destruct (Hdyn Hk) as [Hcs Hnl].
+        exact (case_call_dynamic callee args st st' frag pf t o Hcs Hnl Hargs W Hc E He Hnf).
+      - destruct (lookup_fn fe key idx) as [sg|]; [|discriminate].
+        destruct (intrinsic_cbn sg) as [b|] eqn:Hcbn.
+        + destruct (cbn_info sg b Hcbn) as [_ [_ [Hb _]]]. destruct Hb as [Hb|[Hb|[Hb|Hb]]]; subst b.
+          * destruct args as [|c [|a [|b [|? ?]]]]; try discriminate Hc.
+            inversion Hargs as [|? ? Hc' H1]; subst. inversion H1 as [|? ? Ha' H2]; subst. inversion H2 as [|? ? Hb' H3]; subst.
+            exact (case_call_if sg c a b st st' frag pf t o Hc' Ha' Hb' W Hcbn Hc E He Hnf).
+          * destruct args as [|x [|y [|? ?]]]; try discriminate Hc.
+            inversion Hargs as [|? ? Hx' H1]; subst. inversion H1 as [|? ? Hy' H2]; subst.
+            exact (case_call_and sg x y st st' frag pf t o Hx' Hy' W Hcbn Hc E He Hnf).
+          * destruct args as [|x [|y [|? ?]]]; try discriminate Hc.
+            inversion Hargs as [|? ? Hx' H1]; subst. inversion H1 as [|? ? Hy' H2]; subst.
+            exact (case_call_or sg x y st st' frag pf t o Hx' Hy' W Hcbn Hc E He Hnf).
+          * destruct args as [|x [|? ?]]; try discriminate Hc.
+            inversion Hargs as [|? ? Hx' H1]; subst.
+            exact (case_call_not sg x st st' frag pf t o Hx' W Hcbn Hc E He Hnf).
+        + assert (Hl : s_lazy sg = true \/ s_lazy sg = false) by (destruct (s_lazy sg); auto).
+          destruct Hl as [Hl|Hl].
+          * exact (case_call_lazy sg args st st' frag pf t o Hargs W Hl Hc E He Hnf).
+          * exact (case_call_strict sg args st st' frag pf t o Hargs W Hl Hc E He Hnf).
+    Qed.
   End Step.
+
+  Theorem all_P : forall f a, Pstmt f a.
+  Proof.
+    induction f as [|f IHf]; intros a.
+    - intros st st' frag pf t o _ _ _ _ He Hnf. cbn in He. inversion He; subst. discriminate.
+    - destruct a.
+      + apply case_str.
+      + apply case_num.
+      + apply case_time.
+      + apply case_bool.
+      + apply case_list; exact IHf.
+      + apply case_map; exact IHf.
+      + apply case_obj; exact IHf.
+      + apply case_ident.
+      + apply case_call; exact IHf.
+      + apply case_sub; exact IHf.
+      + apply case_member; exact IHf.
+  Qed.
+
+  (* (A) the VM agrees with the evaluator whenever the annotations agree with the values *)
+  Theorem vm_correct_annot : forall a code pool f t o,
+    subs_agree ops orc fe rho a ->
+    compile_main ops orc fe a = COk (code, pool) ->
+    eval f a = (t, o) -> is_fault o = false ->
+    exists g0, forall g, (g0 <= g)%nat -> vm_run ops orc rho pool None g code = (t, o).
+  Proof.
+    intros a code pool f t o Hs Hc He Hnf. unfold compile_main in Hc. cinv Hc. inversion Hc; subst code pool. clear Hc.
+    assert (W0 : wf (cs_empty [] 0)) by (split; reflexivity).
+    destruct (compile_ext ops orc fe a _ _ W0 Hc0) as [frag [pf E]].
+    destruct (all_P f a _ _ _ _ _ _ Hs W0 Hc0 E He Hnf) as [F0 H0].
+    exists (S F0). intros g Hg. destruct g as [|F]; [lia|].
+    change (cs_rcode (emit_op OP_RETURN st)) with (op_byte OP_RETURN :: cs_rcode st).
+    change (cs_rpool (emit_op OP_RETURN st)) with (cs_rpool st). cbn [rev].
+    pose proof (ext_code _ _ _ _ E) as Hcode. unfold code_of in Hcode. cbn [cs_empty cs_rcode rev app] in Hcode.
+    rewrite Hcode.
+    eapply exec_run; [|apply pool_ext_refl|exact Hnf].
+    apply (H0 F). lia.
+  Qed.
 End Main.
+
+(* ------------------------------------------------------------------ *)
+(* (B) the side condition holds for every accepted expression: type preservation (C01) *)
+Lemma resolve_go_key : forall fuel fresh pk args sigs i key idx ps rt,
+  C05Proofs.resolve_go fuel fresh pk args sigs i = COk (key, idx, ps, rt) -> key = pk.
+Proof.
+  intros fuel fresh pk args. induction sigs as [|sg r IH]; intros i key idx ps rt H; cbn in H; [discriminate|].
+  destruct (try_infer fuel fresh sg args) as [o| |]; cbn in H; try discriminate.
+  destruct o as [[ps' rt']|].
+  - destruct (params_match ps' args); [inversion H; reflexivity|eapply IH; exact H].
+  - eapply IH; exact H.
+Qed.
+
+Lemma resolve_key_nonempty : forall fe fuel fresh name args key idx ps rt,
+  resolve fe fuel fresh name args = COk (key, idx, ps, rt) -> key <> "".
+Proof.
+  intros fe fuel fresh name args key idx ps rt H. rewrite C05Proofs.resolve_unfold in H.
+  destruct (assoc (mono_key name args) (f_mono fe)).
+  - inversion H; subst. intros Hk. pose proof (C01Proofs.mono_key_nonempty name args) as Hn.
+    rewrite Hk in Hn. discriminate.
+  - destruct (assoc (poly_key name (List.length args)) (f_poly fe)); [|discriminate].
+    apply resolve_go_key in H. subst key. intros Hk.
+    pose proof (C01Proofs.poly_key_nonempty name (List.length args)) as Hn. rewrite Hk in Hn. discriminate.
+Qed.
+
+Lemma kind_from_type : forall x vty, has_vtype x vty = true -> kind_agrees vty x.
+Proof.
+  intros x vty H. unfold has_vtype in H. apply andb_true_iff in H. destruct H as [Hok Heq].
+  destruct x; try exact I; cbn [kind_agrees]; cbn [val_type] in Heq.
+  - cbn [val_ok] in Hok. destruct t; try (rewrite andb_false_r in Hok; discriminate).
+    destruct vty; try discriminate Heq. reflexivity.
+  - cbn [val_ok] in Hok. destruct t; try (rewrite andb_false_r in Hok; discriminate).
+    destruct vty; try discriminate Heq. reflexivity.
+Qed.
+
+Lemma fun_free_not_lazy : forall x, fun_free x = true -> not_lazy_fun x.
+Proof. intros x H. destruct x; try exact I. discriminate H. Qed.
+
+Section AgreeIff.
+  Variable ops : numops.
+  Variable orc : oracles.
+  Variable fe : fenv.
+  Variable rho : venv.
+  Notation sagree := (subs_agree ops orc fe rho).
+
+  Lemma sagree_list : forall t es,
+    (exists e, t = TList e) -> (es = [] -> t = TList TBot) -> Forall sagree es -> sagree (AList t es).
+  Proof. intros t es HA HB HC. cbn [subs_agree]. split; [exact HA|]. split; [exact HB|]. apply all_list. exact HC. Qed.
+  Lemma sagree_map : forall t kvs,
+    (exists k v, t = TMap k v) -> (kvs = [] -> t = TMap TBot TBot) -> Forall sagree (flatten kvs) -> sagree (AMap t kvs).
+  Proof. intros t es HA HB HC. cbn [subs_agree]. split; [exact HA|]. split; [exact HB|]. apply all_kvs. exact HC. Qed.
+  Lemma sagree_obj : forall t fs,
+    (exists tfs, t = TObj tfs /\ len tfs = len fs) -> Forall sagree (map snd fs) -> sagree (AObj t fs).
+  Proof. intros t es HA HC. cbn [subs_agree]. split; [exact HA|]. apply all_fields. exact HC. Qed.
+  Lemma sagree_call : forall col key idx fty callee args,
+    Forall sagree args ->
+    (key = "" -> sagree callee /\ forall f t x, eval ops orc fe rho f callee = (t, OVal x) -> not_lazy_fun x) ->
+    sagree (ACall col key idx fty callee args).
+  Proof. intros col key idx fty callee args HA HC. cbn [subs_agree]. split; [apply all_list; exact HA|exact HC]. Qed.
+End AgreeIff.
+
+Section Discharge.
+  Variable ops : numops.
+  Variable orc : oracles.
+  Variable fe : fenv.
+  Variable G : tenv.
+  Variable rho : venv.
+  Variable fuel : nat.
+  Variable fresh : N.
+  Hypothesis Hfe : fe = builtin_fenv \/ fe = fenv_std.
+  Hypothesis HG : tenv_ok G = true.
+  Hypothesis Hrho : env_ok G rho.
+  Hypothesis Hfr : fresh_ok fe fresh.
+  Notation chk := (check fe G fuel fresh).
+  Notation sagree := (subs_agree ops orc fe rho).
+
+  Definition dstmt (e : expr) : Prop := forall a T, chk e = COk (a, T) -> sagree a.
+
+  Lemma pres : forall e a T f t v, chk e = COk (a, T) -> eval ops orc fe rho f a = (t, OVal v) ->
+    has_vtype v T = true /\ fun_free v = true.
+  Proof. intros. eapply C01Proofs.preservation; eassumption. Qed.
+
+  Lemma args_agree : forall args, Forall dstmt args -> forall aargs, cmapM chk args = COk aargs ->
+    Forall sagree (map fst aargs).
+  Proof.
+    intros args HF aargs H. apply C05Proofs.cmapM_Forall2 in H.
+    induction H as [|x [a T] r ys Hx _ IH]; [constructor|].
+    inversion HF as [|? ? Hd Hr]; subst. cbn [map fst]. constructor; [exact (Hd _ _ Hx)|exact (IH Hr)].
+  Qed.
+
+  Lemma check_agree : forall e, dstmt e.
+  Proof.
+    induction e as [p tx|p tx|p tx|p b|p es IHes|p kvs IHkvs|p fs IHfs|p n|p col callee args IHc IHargs|p col v i IHv IHi
+                    |p col ob n np IHo|p n np x pre IHx|p n np fx l r IHl IHr|p n np l m r IHl IHm IHr|p x IHx]
+      using ExprInd.expr_ind'; intros a T H.
+    - cbn in H. destruct (str_value tx); inversion H; subst. exact I.
+    - cbn in H. destruct (num_parse tx); inversion H; subst. exact I.
+    - cbn in H. inversion H; subst. exact I.
+    - cbn in H. inversion H; subst. exact I.
+    - (* list *)
+      destruct es as [|e0 rest].
+      + cbn in H. inversion H; subst. cbn. split; [eexists; reflexivity|]. split; [reflexivity|exact I].
+      + cbn [check] in H. inversion IHes as [|? ? H0 Hrest]; subst.
+        destruct (chk e0) as [[a0 t0]| |] eqn:E0; cbn [cbind] in H; try discriminate.
+        match type of H with cbind (cmapM ?g rest) _ = _ => destruct (cmapM g rest) as [ars| |] eqn:Er end;
+          cbn [cbind] in H; try discriminate.
+        inversion H; subst. apply sagree_list; [eexists; reflexivity|discriminate|].
+        constructor; [exact (H0 _ _ E0)|].
+        apply C05Proofs.cmapM_Forall2 in Er. clear -Er Hrest.
+        induction Er as [|x y r ys Hx _ IH]; [constructor|].
+        inversion Hrest as [|? ? Hd Hr]; subst. constructor; [|exact (IH Hr)].
+        destruct (chk x) as [[a t]| |] eqn:Ex; cbn [cbind] in Hx; try discriminate.
+        destruct (type_assert t0 t); cbn [cbind] in Hx; try discriminate. inversion Hx; subst. exact (Hd _ _ Ex).
+    - (* map *)
+      destruct kvs as [|[k0 v0] rest].
+      + cbn in H. inversion H; subst. cbn. split; [eexists _, _; reflexivity|]. split; [reflexivity|exact I].
+      + cbn [check] in H. inversion IHkvs as [|? ? [Hk0 Hv0] Hrest]; subst. cbn [fst snd] in *.
+        destruct (chk k0) as [[ak0 kt]| |] eqn:Ek0; cbn [cbind] in H; try discriminate.
+        destruct (negb (is_primitive kt)); [discriminate|].
+        destruct (chk v0) as [[av0 vt]| |] eqn:Ev0; cbn [cbind] in H; try discriminate.
+        match type of H with cbind (cmapM ?g rest) _ = _ => destruct (cmapM g rest) as [ars| |] eqn:Er end;
+          cbn [cbind] in H; try discriminate.
+        inversion H; subst. apply sagree_map; [eexists _, _; reflexivity|discriminate|].
+        cbn [flatten flat_map fst snd app]. constructor; [exact (Hk0 _ _ Ek0)|].
+        constructor; [exact (Hv0 _ _ Ev0)|].
+        apply C05Proofs.cmapM_Forall2 in Er. clear -Er Hrest.
+        induction Er as [|x y r ys Hx _ IH]; [constructor|].
+        inversion Hrest as [|? ? [Hdk Hdv] Hr]; subst. cbn [flat_map app].
+        destruct (chk (fst x)) as [[ak t1]| |] eqn:Ek; cbn [cbind] in Hx; try discriminate.
+        destruct (type_assert kt t1); cbn [cbind] in Hx; try discriminate.
+        destruct (chk (snd x)) as [[av t2]| |] eqn:Ev; cbn [cbind] in Hx; try discriminate.
+        destruct (type_assert vt t2); cbn [cbind] in Hx; try discriminate. inversion Hx; subst. cbn [fst snd].
+        constructor; [exact (Hdk _ _ Ek)|]. constructor; [exact (Hdv _ _ Ev)|]. exact (IH Hr).
+    - (* obj *)
+      cbn [check] in H.
+      match type of H with cbind (cmapM ?g fs) _ = _ => destruct (cmapM g fs) as [afs| |] eqn:Ef end;
+        cbn [cbind] in H; try discriminate.
+      match type of H with (if ?c then _ else _) = _ => destruct c end; [discriminate|].
+      inversion H; subst. apply sagree_obj.
+      + eexists. split; [reflexivity|]. unfold len. rewrite !map_length. reflexivity.
+      + rewrite map_map. cbn [snd].
+        apply C05Proofs.cmapM_Forall2 in Ef. clear -Ef IHfs.
+        induction Ef as [|x y r ys Hx _ IH]; [constructor|].
+        inversion IHfs as [|? ? Hd Hr]; subst. cbn [map]. constructor; [|exact (IH Hr)].
+        destruct (chk (snd x)) as [[a t]| |] eqn:Ex; cbn [cbind] in Hx; try discriminate.
+        inversion Hx; subst. cbn [fst snd]. exact (Hd _ _ Ex).
+    - (* ident *)
+      cbn [check] in H. destruct (reserved (rstr n)); [discriminate|].
+      destruct (assoc (rstr n) G); inversion H; subst. exact I.
+    - (* call *)
+      destruct (C05Proofs.is_ident callee) eqn:Hid.
+      + destruct callee as [| | | | | | |pn n| | | | | | |]; try discriminate Hid. rewrite C05Proofs.check_call_ident in H.
+        destruct (cmapM chk args) as [aargs| |] eqn:Ea; cbn [cbind] in H; try discriminate.
+        destruct (resolve fe fuel fresh (rstr n) (map snd aargs)) as [[[[key idx] ps] rt]| |] eqn:Er;
+          cbn [cbind] in H; try discriminate.
+        destruct (params_match ps (map snd aargs)); [|discriminate]. inversion H; subst.
+        apply sagree_call; [exact (args_agree _ IHargs _ Ea)|].
+        intros Hk. exfalso. exact (resolve_key_nonempty _ _ _ _ _ _ _ _ _ Er Hk).
+      + rewrite (C05Proofs.check_call_other _ _ _ _ _ _ _ _ Hid) in H.
+        destruct (cmapM chk args) as [aargs| |] eqn:Ea; cbn [cbind] in H; try discriminate.
+        destruct (chk callee) as [[ac ft]| |] eqn:Ec; cbn [cbind] in H; try discriminate.
+        destruct ft; try discriminate.
+        destruct (try_infer fuel fresh (mkSig name ps ft false) (map snd aargs)) as [o| |]; cbn [cbind] in H; try discriminate.
+        destruct o as [[ps' rt]|]; [|discriminate].
+        destruct (params_match ps' (map snd aargs)); [|discriminate]. inversion H; subst.
+        apply sagree_call; [exact (args_agree _ IHargs _ Ea)|].
+        intros _. split; [exact (IHc _ _ Ec)|].
+        intros f t x Hev. apply fun_free_not_lazy. exact (proj2 (pres _ _ _ _ _ _ Ec Hev)).
+    - (* sub *)
+      cbn [check] in H. destruct (chk v) as [[av vt]| |] eqn:Ev; cbn [cbind] in H; try discriminate.
+      assert (Hkind : forall f t x, eval ops orc fe rho f av = (t, OVal x) -> kind_agrees vt x).
+      { intros f t x Hev. apply kind_from_type. exact (proj1 (pres _ _ _ _ _ _ Ev Hev)). }
+      destruct vt; try discriminate.
+      + destruct (chk i) as [[ai it]| |] eqn:Ei; cbn [cbind] in H; try discriminate.
+        destruct (type_assert it TNum); cbn [cbind] in H; try discriminate. inversion H; subst.
+        cbn [subs_agree]. split; [exact (IHv _ _ Ev)|]. split; [exact (IHi _ _ Ei)|exact Hkind].
+      + destruct (chk i) as [[ai it]| |] eqn:Ei; cbn [cbind] in H; try discriminate.
+        destruct (type_assert it vt1); cbn [cbind] in H; try discriminate. inversion H; subst.
+        cbn [subs_agree]. split; [exact (IHv _ _ Ev)|]. split; [exact (IHi _ _ Ei)|exact Hkind].
+    - (* member *)
+      cbn [check] in H. destruct (chk ob) as [[ao ot]| |] eqn:Eo; cbn [cbind] in H; try discriminate.
+      destruct ot; try discriminate.
+      destruct (assoc (rstr n) fs); [|discriminate]. destruct (index_of (rstr n) fs); [|discriminate].
+      inversion H; subst. cbn [subs_agree]. exact (IHo _ _ Eo).
+    - discriminate H.
+    - discriminate H.
+    - discriminate H.
+    - discriminate H.
+  Qed.
+End Discharge.
+
+Theorem vm_correct : forall (ops : numops) (orc : oracles) fe G rho fuel fresh e a T code pool f t o,
+  (fe = builtin_fenv \/ fe = fenv_std) ->
+  tenv_ok G = true -> env_ok G rho -> fresh_ok fe fresh ->
+  check fe G fuel fresh e = COk (a, T) ->
+  compile_main ops orc fe a = COk (code, pool) ->
+  eval ops orc fe rho f a = (t, o) -> is_fault o = false ->
+  exists g0, forall g, (g0 <= g)%nat -> vm_run ops orc rho pool None g code = (t, o).
+Proof.
+  intros ops orc fe G rho fuel fresh e a T code pool f t o Hfe HG Hrho Hfr Hc Hcm He Hnf.
+  eapply vm_correct_annot; try eassumption.
+  exact (check_agree ops orc fe G rho fuel fresh Hfe HG Hrho Hfr e a T Hc).
+Qed.
+
+Print Assumptions intrinsics_agree.
+Print Assumptions vm_correct.
+Print Assumptions only_refusal.
+Print Assumptions callthread_agrees.
